@@ -553,8 +553,8 @@ def run_batches(ctx, exe, args, total, log_path, timeout=900, per_exec_timeout=N
         env["ASAN_OPTIONS"] = SAN_ENV["ASAN_OPTIONS"] + ":halt_on_error=0:suppress_equal_pcs=0"
     while k < total:
         rc, so, se = run_exe(exe, list(args) + ["--from", k, "--to", total, "--log", log_path], timeout=timeout, env=env)
+        seen_units = set()
         if recover:
-            seen_units = set()
             for unit, txt in split_reports(se):
                 if unit in seen_units:
                     continue           # one report per unit is enough; the unit is tainted anyway
@@ -582,7 +582,12 @@ def run_batches(ctx, exe, args, total, log_path, timeout=900, per_exec_timeout=N
         if x is None or x < k:
             x = k
         d["x"] = x
-        deaths.append(d)
+        if x in seen_units:
+            # the process went on after a recoverable sanitizer report in this very unit and died later in it:
+            # the unit is already tainted and judged by that first report
+            d = None
+        else:
+            deaths.append(d)
         with open(log_path, "a") as f:       # mark the incomplete execution; split_executions() drops it
             f.write('\n{"e":"Aborted","x":%d}\n' % x)
         if len(deaths) >= max_deaths:
